@@ -97,8 +97,8 @@ def r3(ctx):
         found = str(R)
     ctx.check(R is not None and R == tm.add(W, tm.neg(bv)), fi, "Z update divides by rho * (W - b)", role="count:z-update", expected=f"{W} - {bv}", found=found or str(denoms)[:100])
     from . import c18, c11
-    c18.r2(ctx)
-    c11.r4(ctx)
+    ctx.sub(c18.r2)
+    ctx.sub(c11.r4)
 
 
 @rule("C02", "R4", "TERM", "per class, Z = soft-threshold((rho*sum S -/+ Q) / (rho R)) with the three-way split at +-Q", floor=3)
@@ -140,8 +140,8 @@ def r4(ctx):
 @rule("C02", "R5", "TERM", "lambda-sum: scalar branch lambda*(W-b); matrix branch sums lambda over the class's own positions")
 def r5(ctx):
     from . import c18, c11
-    c18.r2(ctx)
-    c11.r5(ctx)
+    ctx.sub(c18.r2)
+    ctx.sub(c11.r5)
 
 
 @rule("C02", "R6", "TERM", "X update: Theta = (1/(2 rho)) Q diag(d + sqrt(d^2 + 4 rho)) Q^T with (d, Q) = eigh(rho (Z - U) - S)", floor=4)
